@@ -18,6 +18,7 @@ pub const S6_DEFAULT_TABLES: u32 = 1 << 5;
 pub const S9_DECODE_LITERALS_GUARD: u32 = 1 << 6;
 pub const S10_DICT_TABLES: u32 = 1 << 7;
 pub const S11_EXEC_SINK: u32 = 1 << 8;
+pub const S12_COPY_CONTRACT: u32 = 1 << 9;
 
 pub static mut STUB_MASK: u32 = 0;
 /// scratch word a stub may use to pick its behaviour (e.g. the fixed capacity for S1)
@@ -133,23 +134,14 @@ impl Nd for bool {
         replay::pop(1)[0] & 1 == 1
     }
 }
+// kani::any::<[T; N]>() draws the elements one by one: N recorded values
 #[cfg(all(verif_replay, not(kani)))]
-impl<const N: usize> Nd for [u8; N] {
+impl<T: Nd + Copy + Default, const N: usize> Nd for [T; N] {
     fn nd() -> Self {
-        let b = replay::pop(N);
-        let mut a = [0u8; N];
-        a.copy_from_slice(&b);
-        a
-    }
-}
-#[cfg(all(verif_replay, not(kani)))]
-impl<const N: usize> Nd for [u32; N] {
-    fn nd() -> Self {
-        let b = replay::pop(4 * N);
-        let mut a = [0u32; N];
+        let mut a = [T::default(); N];
         let mut i = 0;
         while i < N {
-            a[i] = u32::from_le_bytes([b[4 * i], b[4 * i + 1], b[4 * i + 2], b[4 * i + 3]]);
+            a[i] = T::nd();
             i += 1;
         }
         a
